@@ -14,6 +14,15 @@ CHECKS = {
         technique="TLA+ refinement checked by TLC + exhaustive lock-step graph walk + TLC trace validation",
         engine="tlc+walker"),
 }
+CHECKS["C20"] = dict(
+    level="model_checking", design="5/C20, 4.8",
+    text="The real promote_types / promote_types_not_equal / can_cast_literal / equal_base_type / implicit_cast_type are tabulated over the "
+         "complete finite abstraction (128 types, 16 384 ordered pairs); TLC walks the table one state per pair, evaluates every clause of C20 "
+         "(TypeLattice.tla, written from the statement) on the recorded answers, checks associativity on all 2.1e6 triples (thorough), and compares "
+         "the table with the transcription of types.rs (Promote.tla) for drift. Exhaustive over the finite domain.",
+    note="width abstraction by ranks (the code only compares widths with max); deviations predicted by named Dev_ operators are known findings",
+    technique="TLA+ requirement spec evaluated by TLC on the complete recorded function table (trace validation of a finite function)",
+    engine="tlc+table")
 NOT_YET = {}
 for i in range(1, 21):
     pid = f"C{i:02d}"
